@@ -137,8 +137,8 @@ impl Check for C20 {
     }
     fn generate(r: &mut Rng, tier: Tier) -> Case {
         let mut cfg = gen::draw_cfg(r, tier);
-        cfg.max_extra_nodes = cfg.max_extra_nodes.min(4);
-        cfg.max_edges = cfg.max_edges.min(3);
+        cfg.max_extra_nodes = cfg.max_extra_nodes.min(if cfg.large { 12 } else { 4 });
+        cfg.max_edges = cfg.max_edges.min(if cfg.large { 6 } else { 3 });
         cfg.max_arity = cfg.max_arity.min(3);
         let (f, g) = gen::gen_pair(r, &cfg);
         let (f, g) = if r.chance(1, 10) { gen::make_mismatch(r, &f, &g).unwrap_or((f, g)) } else { (f, g) };
